@@ -14,8 +14,12 @@ import (
 // ---- the node's side of eth_getLogs: really applies the address / topic
 // parameters it is given (hex strings as sent by jrpc2)
 
+// unhex: the harness's own reading of a hex argument -- an optional 0x/0X
+// prefix (once), an odd number of digits padded with one leading zero digit
 func unhex(s string) []byte {
-	s = strings.TrimPrefix(strings.TrimPrefix(s, "0x"), "0X")
+	if len(s) >= 2 && s[0] == '0' && (s[1] == 'x' || s[1] == 'X') {
+		s = s[2:]
+	}
 	if len(s)%2 == 1 {
 		s = "0" + s
 	}
